@@ -140,12 +140,13 @@ Qed.
 
 (* shrinking never moves the block and never consults the scope *)
 Theorem realloc_shrink_in_place st k s p old new :
+  c_sv c = false ->
   nth_error (st_scs st) k = Some s -> a_refs (st_a st) <> 0 -> new <= old ->
   N.land (snd p) (c_ma c - 1) = 0 ->
   step c st (Realloc k (Some p) old new) = Ok (st, EPtr (Some p)).
 Proof.
-  intros Hk Hr Hle Hal. unfold step. destruct (N.eqb_spec (a_refs (st_a st)) 0); [contradiction|].
-  unfold with_scope. rewrite Hk. unfold realloc, realloc_fast. rewrite Hal. simpl.
+  intros Hsv Hk Hr Hle Hal. unfold step. destruct (N.eqb_spec (a_refs (st_a st)) 0); [contradiction|].
+  unfold with_scope. rewrite Hk. unfold realloc, realloc_fast. rewrite Hal, Hsv. simpl.
   destruct (N.leb_spec new old); [|lia]. destruct st as [a scs ncl]; simpl. destruct a; reflexivity.
 Qed.
 
@@ -195,7 +196,7 @@ Proof.
 Qed.
 
 Theorem outer_use_traps st g o :
-  reach c st g -> api_okb g o = true -> must_trap o = true -> step c st o = Trap.
+  reach c st g -> api_okb g o = true -> must_trap c o = true -> step c st o = Trap.
 Proof.
   intros R Hapi Hmt. pose proof (reach_inv _ _ R) as I.
   destruct o as [|k|k size|k nmemb size|k p0 old new|k data|k data|k data|k tok|p n v|p|];
@@ -217,7 +218,7 @@ Proof.
     destruct p0 as [p|].
     + apply andb_true_iff in Hapi. destruct Hapi as [Hsc Hfind].
       destruct (scope_okb_spec _ _ Hsc) as [Hkd Hf]. apply andb_true_iff in Hmt. destruct Hmt as [Hmt Hgrow].
-      apply Nat.ltb_lt in Hmt. apply N.ltb_lt in Hgrow.
+      apply Nat.ltb_lt in Hmt.
       destruct (scope_lookup _ _ _ R Hkd) as [s Hk].
       destruct (find (is_user_at p old) (g_blocks g)) as [b|] eqn:Ef; [|discriminate].
       destruct (find_is_user _ _ _ _ Ef) as (Hb & _ & Hl & _).
@@ -225,9 +226,12 @@ Proof.
       apply N.mod_divide in Hal; [|apply (ma_nz c Hwf)].
       unfold step. destruct (N.eqb_spec (a_refs (st_a st)) 0) as [Hz|_]; [exfalso; eapply reach_refs_nz; eauto|].
       unfold with_scope. rewrite Hk. unfold realloc, realloc_fast. rewrite (land_aligned c Hwf _ Hal). simpl.
-      destruct (N.leb_spec new old); [lia|].
       pose proof (reach_inv _ _ R) as [G _ _]. rewrite Hf in G. unfold validate.
-      rewrite (outer_not_validated c _ _ _ _ _ _ _ G Hk Hmt). reflexivity.
+      rewrite (outer_not_validated c _ _ _ _ _ _ _ G Hk Hmt).
+      destruct (N.leb_spec new old) as [Hle|Hgt]; [|reflexivity].
+      assert (Hsv : c_sv c = true).
+      { apply orb_true_iff in Hgrow. destruct Hgrow as [H|H]; [assumption|]. apply N.ltb_lt in H. lia. }
+      rewrite Hsv. reflexivity.
     + destruct (scope_okb_spec _ _ Hapi) as [Hkd Hf]. apply Nat.ltb_lt in Hmt.
       destruct (scope_lookup _ _ _ R Hkd) as [s Hk].
       unfold step. destruct (N.eqb_spec (a_refs (st_a st)) 0) as [Hz|_]; [exfalso; eapply reach_refs_nz; eauto|].
@@ -338,7 +342,7 @@ Proof.
 Qed.
 
 Theorem inner_use_ok st g o :
-  reach c st g -> api_okb g o = true -> must_trap o = false ->
+  reach c st g -> api_okb g o = true -> must_trap c o = false ->
   (exists st' ev, step c st o = Ok (st', ev)) \/ (step c st o = Exit1 /\ may_exit c o = true).
 Proof.
   intros R Hapi Hmt. pose proof (reach_inv _ _ R) as I.
@@ -404,9 +408,15 @@ Proof.
       pose proof (live_aligned _ _ _ R Hb) as Hal. unfold b_off in Hal. rewrite Hl in Hal.
       apply N.mod_divide in Hal; [|apply (ma_nz c Hwf)].
       unfold realloc, realloc_fast. rewrite (land_aligned c Hwf _ Hal). simpl.
-      destruct (N.leb_spec new old) as [Hle|Hgt]; [left; eauto|].
+      destruct (N.leb_spec new old) as [Hle|Hgt].
+      { assert (Hnt : c_sv c && negb (validate (st_a st) s) = false).
+        { apply andb_false_iff in Hmt. destruct Hmt as [H|H].
+          - pose proof (Hk0 _ H) as Hk. subst k. rewrite (validate_inner _ _ _ R Hf Hs). apply andb_false_r.
+          - apply orb_false_iff in H. destruct H as [H _]. rewrite H. reflexivity. }
+        rewrite Hnt. left. eauto. }
       assert (k = O).
-      { apply andb_false_iff in Hmt. destruct Hmt as [H|H]; [auto|]. apply N.ltb_ge in H. lia. }
+      { apply andb_false_iff in Hmt. destruct Hmt as [H|H]; [auto|].
+        apply orb_false_iff in H. destruct H as [_ H]. apply N.ltb_ge in H. lia. }
       subst k. rewrite (validate_inner _ _ _ R Hf Hs). simpl.
       destruct (reach_frames _ _ R Hnz) as [_ F2].
       destruct (a_frames (st_a st)) as [|fr rest] eqn:Efr; [congruence|].
@@ -566,7 +576,7 @@ Proof.
       destruct (alloc_str c (st_a st) s data) as [[? ?]| | |]; try discriminate. inversion Hstep; eauto. }
     simpl. destruct q; simpl; apply Permutation_refl.
   - (* Cleanup: succeeded, hence through the innermost scope *)
-    destruct (Bool.bool_dec (must_trap (Cleanup k tok)) true) as [Hmt|Hmt].
+    destruct (Bool.bool_dec (must_trap c (Cleanup k tok)) true) as [Hmt|Hmt].
     { rewrite (outer_use_traps _ _ _ R Hapi Hmt) in Hstep. discriminate. }
     simpl in Hmt. assert (k = O) by (destruct k; [reflexivity|exfalso; apply Hmt; reflexivity]). subst k.
     assert (exists p, ev = EPtr (Some p)) as (p & ->).
@@ -672,7 +682,7 @@ Qed.
 (* the configurations of the two builds, from the generated constants       *)
 (* ======================================================================== *)
 Definition cfg_of (gap pagesize : N) : cfg :=
-  mkCfg maxalign sizeof_frame sizeof_cleanup gap (frame_mult * pagesize).
+  mkCfg maxalign sizeof_frame sizeof_cleanup gap (frame_mult * pagesize) shrink_validated.
 
 Lemma cfg_wf gap ps :
   gap = poison_normal \/ gap = poison_asan ->
@@ -701,10 +711,11 @@ Proof.
      |vm_compute; reflexivity]).
 Qed.
 
-(* maxalign is the pointer size: aligned for the arena means pointer-aligned *)
-Lemma maxalign_is_pointer_size x gap ps : x mod c_ma (cfg_of gap ps) = 0 -> x mod pointer_size = 0.
+(* maxalign, as arena.c defines it, is a multiple of the platform's pointer size: aligned for the
+   arena means pointer-aligned *)
+Lemma maxalign_pointer x : x mod maxalign = 0 -> x mod pointer_size = 0.
 Proof.
-  simpl. intros H. apply N.mod_divide in H; [|discriminate]. apply N.mod_divide; [discriminate|].
+  intros H. apply N.mod_divide in H; [|discriminate]. apply N.mod_divide; [discriminate|].
   apply N.divide_trans with maxalign; [|assumption]. apply N.mod_divide; [discriminate|vm_compute; reflexivity].
 Qed.
 
